@@ -521,11 +521,9 @@ func execC17(spec *RunSpec) *Result {
 					fail(i, op, "resolve-mismatch", "Resolve disagrees with the model on a map/slice path", "Resolve(%q) = (%v,%v), model (%v,%v)", op.Path, rv, rok, mv, mok)
 				}
 			case "envmap":
-				e := rs.EnvMap()
-				e["scribble"] = i // the returned map is the caller's: writing to it must not affect the stack
-				if _, ok := rs.Lookup("scribble"); ok {
-					fail(i, op, "envmap-aliased", "EnvMap returns a map aliased with the stack", "writing to the map returned by EnvMap changed the stack")
-				}
+				// the merged environment is read only (whether it is a copy or a live view is not settled by the
+				// statement); its agreement with Lookup is compared for every name after every operation
+				_ = rs.EnvMap()
 			case "copy":
 				if len(real) < 8 {
 					real = append(real, rs.Copy())
@@ -605,8 +603,9 @@ func execC17(spec *RunSpec) *Result {
 						break
 					}
 					// ty.link (a nil *url.URL) and ty.nilp only must not panic
-					want, settled := map[string][2]string{"ty.sm.nokey": {"", "false"}, "ty.sm.k": {"v", "true"}, "ty.p.name": {"in", "true"},
-						"ty.url": {"https://example.test/x", "true"}, "ty.dur": {"1.5s", "true"}, "ty.p.n": {"3", "true"}}[op.Path]
+					// settled: an absent path is absent, a string is that string; how a URL, a duration or a number is
+					// formatted (or whether it converts at all) is the implementation's choice - those only must not panic
+					want, settled := map[string][2]string{"ty.sm.nokey": {"", "false"}, "ty.sm.k": {"v", "true"}, "ty.p.name": {"in", "true"}}[op.Path]
 					if settled && (gs != want[0] || fmt.Sprint(gok) != want[1]) {
 						fail(i, op, "getstring-mismatch", "GetString disagrees with ordinary Go indexing on a typed container", "GetString(%q) = (%q,%v), Go indexing gives (%q,%s)", op.Path, gs, gok, want[0], want[1])
 					}
